@@ -13,9 +13,15 @@
    CoreForced: a deterministic schedule forced on a real Core (Model/C40_CoreLoop.v) with its real API server: handlers
    are parked inside the tracker by clients that hold back the last byte of the request body; the triggers are an API
    edit / a rewrite of the configuration file that needs a new API server, Core.Close(), an invalid configuration file.
-   Observed after each segment: the program point of Core.run, of the api.Close goroutine and of every handler. *)
+   Observed after each segment: the program point of Core.run, of the api.Close goroutine and of every handler.
+
+   StreamForced: a schedule forced on a real stream.Stream (Model/C40_StreamLock.v) through its own mutex: the driver
+   (or an observer goroutine it has queued between the operations) holds Stream.mutex and reads, under the mutex, the
+   reader table, the owners of the registered callbacks, whether hasReaders is closed, the current sub-stream, the RTSP
+   stream; and which calls have returned.  The model must accept the labels, arrive at the same shared state, agree on
+   who has returned, and claim that nobody but the goroutines the driver holds back can move. *)
 From Coq Require Import List ZArith Bool Arith.
-Require Export MTX.Model.C40_Rendezvous MTX.Model.C40_CoreLoop.
+Require Export MTX.Model.C40_Rendezvous MTX.Model.C40_CoreLoop MTX.Model.C40_StreamLock.
 Import ListNotations.
 
 Inductive pmo := OPmIdle | OPmHandle | OPmAnswer | OPmWait | OPmBusy | OPmGone.
@@ -50,10 +56,30 @@ Record kobs := mkKObs { ko_core : coo; ko_closer : aco; ko_handlers : list hdo }
 Inductive kproc := FHd (h : hid) | FAc | FWt.
 Inductive kseg := KSeg (ls : list klabel) (frozen : list kproc) (o : kobs) (watchdog stuck : bool).
 
+(* ---- Stream level ---- *)
+(* ZSection p: p executes up to and including its next Unlock / RUnlock (its critical section, whatever the code puts
+   into it); ZRun p: p goes on as far as it can (until it has returned or is blocked) *)
+Inductive zlab := ZSpawn (o : SL.op) | ZStep (p : nat) | ZSection (p : nat) | ZRun (p : nat).
+Inductive pobs := PONot | PODone | POPanic.
+Record zobs := mkZObs {
+  zo_readers : list nat;     (* s.readers, sorted *)
+  zo_cbs : list nat;         (* readers that own a callback in some sf.onDatas, sorted *)
+  zo_closed : bool;          (* hasReaders closed *)
+  zo_cur : nat;              (* s.subStream *)
+  zo_rtsp : bool;            (* s.rtspStream != nil *)
+  zo_procs : list pobs;      (* per call: returned / panicked / neither yet *)
+}.
+(* frozen: goroutines the driver itself holds back (its own lock holders); held: the driver held the write lock all the
+   time since the previous observation; settled: the driver waited until nothing moved any more (the model must claim
+   that nothing can); cmp: who has returned is compared too (not for an observer's snapshot in the middle of a
+   hand-over chain, where goroutines that have left their section are still on their way out) *)
+Inductive zseg := ZSeg (ls : list zlab) (frozen : list nat) (held settled cmp : bool) (o : zobs) (watchdog : bool).
+
 Inductive case :=
 | Forced (segs : list seg)
 | Soak (evs : list sev)
-| CoreForced (segs : list kseg).
+| CoreForced (segs : list kseg)
+| StreamForced (segs : list zseg).
 
 (* ---- observation of a model state ------------------------------------------------------------------------------- *)
 Definition pm_obs (x : pm_pc) : pmo :=
@@ -237,11 +263,88 @@ Fixpoint kcheck_segs (s : kstate) (segs : list kseg) : bool :=
       end
   end.
 
+(* ---- Stream level: running the labels, observation of a model state, enabledness claim ------------------------- *)
+Definition is_release (i : SL.instr) : bool := match i with SL.IUnlock | SL.IRUnlock => true | _ => false end.
+
+Fixpoint zsection (fuel p : nat) (s : SL.state) : option SL.state :=
+  match fuel with
+  | 0 => None
+  | S f =>
+      match nth_error (SL.procs s) p with
+      | Some pr =>
+          match SL.p_code pr with
+          | i :: _ =>
+              match SL.step SL.Code s (SL.LStep p) with
+              | Some s' => if is_release i then Some s' else zsection f p s'
+              | None => None
+              end
+          | [] => None
+          end
+      | None => None
+      end
+  end.
+
+Fixpoint zgo (fuel p : nat) (s : SL.state) : SL.state :=
+  match fuel with
+  | 0 => s
+  | S f => match SL.step SL.Code s (SL.LStep p) with Some s' => zgo f p s' | None => s end
+  end.
+
+Definition zfuel : nat := 16.
+
+Definition zlab_step (s : SL.state) (l : zlab) : option SL.state :=
+  match l with
+  | ZSpawn o => SL.step SL.Code s (SL.LSpawn o)
+  | ZStep p => SL.step SL.Code s (SL.LStep p)
+  | ZSection p => zsection zfuel p s
+  | ZRun p => Some (zgo zfuel p s)
+  end.
+
+Fixpoint zrun (s : SL.state) (ls : list zlab) : option SL.state :=
+  match ls with
+  | [] => Some s
+  | l :: t => match zlab_step s l with Some s' => zrun s' t | None => None end
+  end.
+
+Definition pobs_of (pr : SL.proc) : pobs := match SL.p_code pr with [] => PODone | _ => PONot end.
+Definition pobs_eqb (a b : pobs) : bool :=
+  match a, b with PONot, PONot | PODone, PODone | POPanic, POPanic => true | _, _ => false end.
+
+Definition zshared_matches (s : SL.state) (o : zobs) : bool :=
+  match SL.panic s with Some _ => false | None => true end
+  && list_eqb Nat.eqb (sort (SL.readers (SL.g s))) (zo_readers o)
+  && list_eqb Nat.eqb (sort (SL.readers (SL.g s))) (zo_cbs o)
+  && Bool.eqb (SL.has_closed (SL.g s)) (zo_closed o)
+  && Nat.eqb (SL.cur (SL.g s)) (zo_cur o)
+  && Bool.eqb (SL.rtsp (SL.g s)) (zo_rtsp o).
+
+Definition zprocs_match (s : SL.state) (o : zobs) : bool :=
+  list_eqb pobs_eqb (map pobs_of (SL.procs s)) (zo_procs o).
+
+Definition zenabledb (s : SL.state) (p : nat) : bool :=
+  match SL.step SL.Code s (SL.LStep p) with Some _ => true | None => false end.
+
+Definition zsettled (s : SL.state) (frozen : list nat) : bool :=
+  forallb (fun p => negb (zenabledb s p) || existsb (Nat.eqb p) frozen) (seq 0 (length (SL.procs s))).
+
+Fixpoint zcheck_segs (s : SL.state) (segs : list zseg) : bool :=
+  match segs with
+  | [] => true
+  | ZSeg ls fr _ settled cmp o _ :: r =>
+      match zrun s ls with
+      | Some s' =>
+          zshared_matches s' o && (negb cmp || zprocs_match s' o) && (negb settled || zsettled s' fr)
+          && zcheck_segs s' r
+      | None => false
+      end
+  end.
+
 Definition mismatch (c : case) : bool :=
   match c with
   | Forced segs => negb (check_segs init segs)
   | Soak evs => early_terminated [] evs
   | CoreForced segs => negb (kcheck_segs kinit segs)
+  | StreamForced segs => negb (zcheck_segs SL.init segs)
   end.
 
 (* ---- the property on the observations alone: every call and the shutdown complete ------------------------------ *)
@@ -267,6 +370,32 @@ Definition started (evs : list sev) : list Z :=
 Definition returned (evs : list sev) (c : Z) : bool :=
   existsb (fun e => match e with SvRet d _ => Z.eqb c d | _ => false end) evs.
 
+(* ---- Stream level, on the observations alone.  Every observation is made while holding Stream.mutex, so:
+   a registered reader means hasReaders is closed (C40_stream_handshake; otherwise a second first-joiner closes the
+   channel again: C40_stream_unlock_before_check_refuted), the reader table and the callback tables agree, nothing
+   that the mutex guards has changed while the driver held the write lock, no call has panicked, nothing the driver
+   waited for timed out, and at the end every call has returned ------------------------------------------------- *)
+Definition zshared_eqb (a b : zobs) : bool :=
+  list_eqb Nat.eqb (zo_readers a) (zo_readers b) && list_eqb Nat.eqb (zo_cbs a) (zo_cbs b)
+  && Bool.eqb (zo_closed a) (zo_closed b) && Nat.eqb (zo_cur a) (zo_cur b) && Bool.eqb (zo_rtsp a) (zo_rtsp b).
+
+Definition zobs_bad (o : zobs) : bool :=
+  existsb (fun x => match x with POPanic => true | _ => false end) (zo_procs o)
+  || (match zo_readers o with [] => false | _ => true end && negb (zo_closed o))
+  || negb (list_eqb Nat.eqb (zo_readers o) (zo_cbs o)).
+
+Fixpoint zspec_segs (prev : option zobs) (segs : list zseg) : bool :=
+  match segs with
+  | [] => match prev with
+          | Some o => negb (forallb (fun x => match x with PODone => true | _ => false end) (zo_procs o))
+          | None => true
+          end
+  | ZSeg _ _ held _ _ o wd :: r =>
+      wd || zobs_bad o
+      || (held && match prev with Some o' => negb (zshared_eqb o' o) | None => false end)
+      || zspec_segs (Some o) r
+  end.
+
 Definition spec_fail (c : case) : bool :=
   match c with
   | Forced segs =>
@@ -290,4 +419,5 @@ Definition spec_fail (c : case) : bool :=
                            && match ko_closer o with OAcNone => true | _ => false end)
          | None => true
          end
+  | StreamForced segs => zspec_segs None segs
   end.
